@@ -74,6 +74,7 @@ type sim struct {
 	dead      bool // a panic happened (or a parked call could not be observed): the case is abandoned
 	nops      int
 	park      *parkedCall // the Consume call currently parked in NotEmpty (at most one)
+	preSnap   *snapshot   // "before" of the next op, taken before its goroutines were started
 }
 
 // parkedCall is a Consume call running on its own goroutine, blocked in Queue.NotEmpty.
@@ -126,6 +127,9 @@ func (s *sim) op(kind string, g int, n int64, line string, f func() string) {
 		return
 	}
 	before := s.snap()
+	if s.preSnap != nil {
+		before, s.preSnap = *s.preSnap, nil
+	}
 	metaBefore := map[int]gpos{}
 	for k, v := range s.meta {
 		metaBefore[k] = v
@@ -178,8 +182,16 @@ func (s *sim) oracle(kind string, g int, n int64, res string, b, a snapshot, met
 		if a.ack < b.ack {
 			s.fail("queue-ack-moved-back-by-"+kind, "queue ack %d -> %d", b.ack, a.ack)
 		}
-		if a.ack != b.ack && kind != "sync" {
+		if a.ack != b.ack && kind != "sync" && kind != "createsync" {
 			s.fail("queue-ack-moved-by-"+kind, "queue ack %d -> %d", b.ack, a.ack)
+		}
+		if kind == "createsync" && a.ack != b.ack {
+			// the group was being created when Sync was called: it is in the map before Sync can run
+			for id, p := range a.g {
+				if a.ack > p.a {
+					s.fail("sync-queue-ack-above-group-ack", "Sync concurrent with the creation of group %d moved the queue ack to %d, group %d has ack %d", g, a.ack, id, p.a)
+				}
+			}
 		}
 		if kind == "sync" && a.ack != b.ack {
 			for id, p := range b.g {
@@ -211,7 +223,7 @@ func (s *sim) oracle(kind string, g int, n int64, res string, b, a snapshot, met
 			}
 		}
 		for id := range a.g {
-			if _, ok := b.g[id]; !ok && !(kind == "create" && id == g) {
+			if _, ok := b.g[id]; !ok && !((kind == "create" || kind == "createsync") && id == g) {
 				s.fail("group-appeared-by-"+kind, "group %d appeared", id)
 			}
 		}
@@ -277,6 +289,35 @@ func (s *sim) oracle(kind string, g int, n int64, res string, b, a snapshot, met
 			}
 			if kind != "pausewake" && !s.paused[g] && bp.c+1 <= a.app {
 				s.fail("parked-consume-missed-message", "%s: consumed %d appended %d but the woken Consume returned -1", kind, bp.c, a.app)
+			}
+		}
+	case "ackconsume":
+		// an Ack inside the window and a Consume of the same group issued concurrently: both take
+		// effect (in whatever order the lock admits them), the consumed position moves by one
+		if !live || bp.c < -1 {
+			break
+		}
+		v, err := strconv.ParseInt(res, 10, 64)
+		if err != nil {
+			break
+		}
+		if v != bp.c+1 || ap.c != v || ap.a != n {
+			s.fail("ack-consume-race-positions", "Ack(%d) ‖ Consume on %v: Consume returned %d, positions now %v", n, bp, v, ap)
+		}
+	case "create":
+		// (6) for stop + create: a group restored from its meta page gets the positions it had,
+		// except that both are lifted to the queue ack when they lie below it
+		if m, had := metaBefore[g]; had && !live && !s.reset {
+			ea := m.a
+			if a.ack > ea {
+				ea = a.ack
+			}
+			ec := m.c
+			if ea > ec {
+				ec = ea
+			}
+			if ap != (gpos{ec, ea}) && !(ap.a > ap.c) { // ack > consumed is reported by clause (1)
+				s.fail("recreate-changes-group-position", "group %d had %v when it was stopped, re-created as %v (queue ack %d)", g, m, ap, a.ack)
 			}
 		}
 	case "ack": // (3)
@@ -880,6 +921,275 @@ func (s *sim) caseParkedRandom(rng *rand.Rand) {
 	}
 }
 
+// ---- races at lock granularity, realised by parking one meta-page store (gate.go)
+
+// doCreateSync: GetOrCreateConsumerGroup(g) is parked at its first meta-page store (it has read
+// the queue ack and, in the pinned source, holds lock4map); this goroutine acknowledges on the
+// other groups; a third goroutine calls Sync + GC (blocked on lock4map in the pinned source);
+// then the store is released. One protocol line: the model runs create; sync; gc.
+func (s *sim) doCreateSync(g int, rng *rand.Rand, acks func()) {
+	if _, live := s.gs[g]; live || s.dead || s.park != nil {
+		return
+	}
+	gt := armGate(fmt.Sprintf("/cg/%d/", g))
+	defer disarmGate()
+	type cres struct {
+		h   queue.ConsumerGroup
+		err error
+	}
+	ach := make(chan cres, 1)
+	go func() {
+		defer func() {
+			if r := recover(); r != nil {
+				ach <- cres{nil, fmt.Errorf("panic: %v", r)}
+			}
+		}()
+		h, err := s.fq.GetOrCreateConsumerGroup(strconv.Itoa(g))
+		ach <- cres{h, err}
+	}()
+	if !gt.waitHit(3 * time.Second) {
+		gt.open()
+		<-ach
+		s.dead = true
+		s.c.Branch("race/create-not-observed(case abandoned)")
+		return
+	}
+	if acks != nil {
+		acks()
+	}
+	bdone := make(chan struct{})
+	go func() {
+		defer close(bdone)
+		defer func() { _ = recover() }()
+		s.fq.Sync()
+		s.fq.Queue().GC()
+	}()
+	s.c.Branch("race/create-sync-" + waitDoneOrBlocked(bdone, "sync.RWMutex.RLock", "fanOutQueue).Sync", 300*time.Millisecond))
+	s.op("createsync", g, 0, fmt.Sprintf("createsync %d", g), func() string {
+		gt.open()
+		var r cres
+		select {
+		case r = <-ach:
+		case <-time.After(20 * time.Second):
+			s.fail("race-create-not-finished", "GetOrCreateConsumerGroup(%d) did not return within 20s after its store was released", g)
+			s.dead = true
+			return "timeout"
+		}
+		select {
+		case <-bdone:
+		case <-time.After(20 * time.Second):
+			s.fail("race-sync-not-finished", "Sync+GC did not return within 20s")
+			s.dead = true
+			return "timeout"
+		}
+		if r.err != nil {
+			return "err:" + r.err.Error()
+		}
+		s.gs[g] = r.h
+		s.paused[g] = false
+		return "ok"
+	})
+	s.readable("createsync", rng)
+}
+
+// doAckConsume: Ack(n) (n inside the window) is parked at its first meta-page store (in the pinned
+// source it holds lock4headSeq.RLock); Consume of the same group runs on another goroutine (blocked
+// on the write lock in the pinned source); then the store is released. The model runs ack; consume.
+func (s *sim) doAckConsume(g int, n int64) {
+	h, ok := s.gs[g]
+	if !ok || s.dead || s.park != nil || s.paused[g] || h.ConsumedSeq()+1 > s.fq.Queue().AppendedSeq() ||
+		n < h.AcknowledgedSeq() || n > h.ConsumedSeq() {
+		return
+	}
+	pre := s.snap()
+	gt := armGate(fmt.Sprintf("/cg/%d/", g))
+	defer disarmGate()
+	adone := make(chan struct{})
+	go func() {
+		defer close(adone)
+		defer func() { _ = recover() }()
+		h.Ack(n)
+	}()
+	if !gt.waitHit(3 * time.Second) {
+		gt.open()
+		<-adone
+		s.dead = true
+		s.c.Branch("race/ack-not-observed(case abandoned)")
+		return
+	}
+	bch := make(chan int64, 1)
+	bdone := make(chan struct{})
+	go func() {
+		defer close(bdone)
+		defer func() {
+			if r := recover(); r != nil {
+				bch <- -99
+			}
+		}()
+		bch <- h.Consume()
+	}()
+	s.c.Branch("race/ack-consume-" + waitDoneOrBlocked(bdone, "sync.RWMutex.Lock", "consumerGroup).consume", 300*time.Millisecond))
+	s.preSnap = &pre
+	s.op("ackconsume", g, n, fmt.Sprintf("ackconsume %d %d", g, n), func() string {
+		gt.open()
+		select {
+		case <-adone:
+		case <-time.After(20 * time.Second):
+			s.fail("race-ack-not-finished", "Ack did not return within 20s after its store was released")
+			s.dead = true
+			return "timeout"
+		}
+		select {
+		case v := <-bch:
+			if v == -99 {
+				panic("Consume panicked")
+			}
+			return strconv.FormatInt(v, 10)
+		case <-time.After(20 * time.Second):
+			s.fail("race-consume-not-finished", "Consume did not return within 20s")
+			s.dead = true
+			return "timeout"
+		}
+	})
+}
+
+// ackOthers acknowledges, on every live group, up to its consumed position (no map lock needed).
+func (s *sim) ackOthers(rng *rand.Rand, all bool) {
+	ids := make([]int, 0, len(s.gs))
+	for id := range s.gs {
+		ids = append(ids, id)
+	}
+	sort.Ints(ids)
+	for _, id := range ids {
+		h := s.gs[id]
+		lo, hi := h.AcknowledgedSeq(), h.ConsumedSeq()
+		if hi < lo || (!all && rng.Intn(3) == 0) {
+			continue
+		}
+		n := hi
+		if !all && rng.Intn(3) == 0 {
+			n = lo + rng.Int63n(hi-lo+1)
+		}
+		s.doAck(id, n)
+	}
+}
+
+// caseRaceFixed: the schedules of the seeded changes c06-4 and c06-6, deterministically.
+func (s *sim) caseRaceFixed(rng *rand.Rand) {
+	s.doCreate(0)
+	for i := 0; i < 12; i++ {
+		s.doAppend(i + 1)
+	}
+	for i := 0; i < 11; i++ {
+		s.doConsume(0)
+	}
+	// group 1 is being created while group 0 acknowledges 10 and Sync + GC are called
+	s.doCreateSync(1, rng, func() { s.doAck(0, 10) })
+	s.doConsume(1)
+	if h := s.gs[1]; h != nil && !s.dead {
+		s.get(h.ConsumedSeq())
+	}
+	s.doSync()
+	// Ack ‖ Consume on group 0, then reopen: the consumed position must survive
+	s.doAckConsume(0, 10)
+	s.doReopen(rng)
+	s.doConsume(0)
+	// the same followed by stop + create
+	s.doAppend(3)
+	s.doAppend(4)
+	s.doAckConsume(1, s.gs[1].AcknowledgedSeq())
+	s.doStop(1)
+	s.doCreate(1)
+	s.doConsume(1)
+	// a stopped group is re-created while the others move on
+	s.doStop(1)
+	for s.gs[0].ConsumedSeq() < s.fq.Queue().AppendedSeq() && !s.dead {
+		s.doConsume(0)
+	}
+	s.doCreateSync(1, rng, func() { s.ackOthers(rng, true) })
+	s.doSync()
+	s.doGC(rng)
+	s.doReopen(rng)
+	s.pages()
+}
+
+func (s *sim) caseRaceRandom(rng *rand.Rand) {
+	ng := 3
+	s.doCreate(0)
+	if rng.Intn(2) == 0 {
+		s.doCreate(1)
+	}
+	for k := rng.Intn(10) + 4; k > 0; k-- {
+		s.doAppend(rng.Intn(40) + 1)
+	}
+	live := func() []int {
+		ids := make([]int, 0, len(s.gs))
+		for id := range s.gs {
+			ids = append(ids, id)
+		}
+		sort.Ints(ids)
+		return ids
+	}
+	rounds := 3 + rng.Intn(6)
+	for r := 0; r < rounds && !s.dead; r++ {
+		ids := live()
+		// some sequential progress
+		for k := rng.Intn(6); k > 0 && len(ids) > 0; k-- {
+			s.doConsume(ids[rng.Intn(len(ids))])
+		}
+		if rng.Intn(3) == 0 {
+			s.doAppend(rng.Intn(40) + 1)
+			s.doAppend(rng.Intn(40) + 1)
+		}
+		switch e := rng.Intn(10); {
+		case e < 4: // create (new or stopped group) ‖ ack + Sync + GC
+			g := rng.Intn(ng)
+			if _, ok := s.gs[g]; ok {
+				if len(s.gs) > 1 && rng.Intn(2) == 0 {
+					s.doStop(g)
+				} else {
+					g = -1
+				}
+			}
+			if g >= 0 {
+				s.doCreateSync(g, rng, func() { s.ackOthers(rng, rng.Intn(2) == 0) })
+				if rng.Intn(2) == 0 {
+					s.doConsume(g)
+					if h := s.gs[g]; h != nil && h.ConsumedSeq() >= 0 && !s.dead {
+						s.get(h.ConsumedSeq())
+					}
+				}
+			}
+		case e < 8: // Ack ‖ Consume, then what reopen / re-create restores
+			if len(ids) > 0 {
+				g := ids[rng.Intn(len(ids))]
+				h := s.gs[g]
+				if lo, hi := h.AcknowledgedSeq(), h.ConsumedSeq(); hi >= lo {
+					s.doAckConsume(g, lo+rng.Int63n(hi-lo+1))
+				}
+				switch rng.Intn(3) {
+				case 0:
+					s.doReopen(rng)
+				case 1:
+					s.doStop(g)
+					s.doCreate(g)
+				}
+			}
+		case e == 8:
+			s.doSync()
+			s.doGC(rng)
+		default:
+			s.doReopen(rng)
+		}
+	}
+	if !s.dead {
+		s.doSync()
+		s.doGC(rng)
+		s.doReopen(rng)
+		s.pages()
+	}
+}
+
 // scratch returns a fresh scratch directory; cases that write whole data pages prefer a
 // memory-backed file system when there is one.
 func scratch(big bool) (string, error) {
@@ -897,6 +1207,7 @@ func (a area) Run(c *core.Ctx) error {
 	// a store into a page that GC unmapped would otherwise kill the process: make it a panic of this
 	// goroutine (all queue calls are made synchronously from it), reported as an oracle failure
 	defer debug.SetPanicOnFault(debug.SetPanicOnFault(true))
+	defer installSeam()()
 	for i := 0; i < c.N; i++ {
 		if !c.Want(i) {
 			continue
@@ -936,6 +1247,10 @@ func (a area) Run(c *core.Ctx) error {
 				s.caseParkedForward(rng)
 			case "parked":
 				s.caseParkedRandom(rng)
+			case "race-fixed":
+				s.caseRaceFixed(rng)
+			case "race":
+				s.caseRaceRandom(rng)
 			default:
 				s.caseRandom(rng, kind)
 			}
@@ -966,13 +1281,17 @@ func caseKind(i int, tier string, rng *rand.Rand) string {
 		return "parked-fixed"
 	case 5:
 		return "parked-forward"
+	case 6:
+		return "race-fixed"
 	}
 	if tier == "thorough" && i%40 == 7 {
 		return "pages"
 	}
 	switch r := rng.Intn(100); {
-	case r < 12:
+	case r < 10:
 		return "parked"
+	case r < 20:
+		return "race"
 	case r < 55:
 		return "random"
 	case r < 70:
